@@ -118,6 +118,13 @@ func optMutants(pkg string) []optMutant {
 	lit("enum-number-out-of-range", "failure_enum_in_msg_literal_using_out_of_range_number", "e: 2147483648")
 	lit("enum-number-out-of-range", "failure_enum_in_msg_literal_using_out_of_range_negative_number", "e: -2147483649").Form = "literal-neg"
 	lit("closed-enum-unknown-number", "failure_closed_enum_in_msg_literal_using_unknown_number", "e: 5")
+	// google.protobuf.Any expansions
+	anyRef := "[type.googleapis.com/" + pkg + ".OptMsg]"
+	add("any-unknown-type", "literal", "failure_any_message_literal_incorrect_type", "option (c20anyx) = { [type.googleapis.com/"+pkg+".Nope] { } };")
+	add("any-unsupported-domain", "literal", "failure_any_message_literal_unsupported_domain", "option (c20anyx) = { [types.custom.io/"+pkg+".OptMsg] { i: 1 } };")
+	add("any-reference-in-non-any", "literal", "failure_any_message_literal_not_any", "option (c20x) = { "+anyRef+" { i: 1 } };")
+	add("any-scalar-value", "literal", "failure_any_message_literal_scalar", "option (c20anyx) = { "+anyRef+": 1 };")
+	add("any-duplicate", "literal", "failure_any_message_literal_duplicate", "option (c20anyx) = { "+anyRef+" { i: 1 } "+anyRef+" { i: 1 } };")
 	// target types
 	add("target-type", "stmt", "failure_editions_feature_on_wrong_target_type", "option (c20t) = 1;")
 	add("target-type", "path", "failure_editions_feature_on_wrong_target_type", "option (c20tm).v = 1;")
@@ -148,6 +155,7 @@ var controlStmts = []string{
 	"option (c20r) = 0x7fffffff;",
 	"option (c20r) = -2147483648;",
 	"option (c20s) = \"a\" 'b' \"\\x63\";",
+	"option (c20any) = { [type.googleapis.com/%PKG%.OptMsg] { i: 7 s: \"x\" } };",
 }
 
 // probeSource returns src with the probe block appended; stmts go into the
@@ -169,6 +177,9 @@ func probeSource(src, syntax, pkg string, withEnumExt bool, stmts []string) stri
 	if !strings.Contains(src, "google/protobuf/descriptor.proto") {
 		sb.WriteString(probeImportDesc + "\n")
 	}
+	if !strings.Contains(src, "google/protobuf/any.proto") {
+		sb.WriteString("import \"google/protobuf/any.proto\";\n")
+	}
 	if !strings.Contains(src, `"`+optSchemaFile+`"`) && !strings.Contains(src, `'`+optSchemaFile+`'`) {
 		sb.WriteString(`import "` + optSchemaFile + "\";\n")
 	}
@@ -180,6 +191,7 @@ func probeSource(src, syntax, pkg string, withEnumExt bool, stmts []string) stri
 	if withEnumExt {
 		fmt.Fprintf(&sb, "  %s.%s.OptEnum c20e = 70009;\n", opt, pkg)
 	}
+	fmt.Fprintf(&sb, "  %s.google.protobuf.Any c20any = 70011;\n  %s.google.protobuf.Any c20anyx = 70012;\n", opt, opt)
 	fmt.Fprintf(&sb, "}\n")
 	fmt.Fprintf(&sb, "extend google.protobuf.FieldOptions {\n  %sint32 c20tf = 70010 [targets = TARGET_TYPE_FIELD, targets = TARGET_TYPE_ENUM];\n}\n", opt)
 	fmt.Fprintf(&sb, "message C20T {\n  %sint32 v = 1 [targets = TARGET_TYPE_ENUM];\n  %sint32 w = 2;\n}\n", opt, opt)
